@@ -873,8 +873,10 @@ async fn run(plan: ReqPlan) -> RunObs {
         peers.push(peer.clone());
         let core = ep.core.clone();
         let creds = sni_creds.clone();
+        // as TlsDemux hands it over: the whole SNI, credentials label included
+        let sni = creds.as_ref().map(|c| format!("{}.vpn.example", c)).unwrap_or_else(|| "vpn.example".into());
         sessions.push(tokio::spawn(async move {
-            core.verif_serve_session(true, stream, "vpn.example".into(), creds).await
+            core.verif_serve_session(true, stream, sni, creds).await
         }));
         match h2_connect(
             peer,
@@ -920,7 +922,8 @@ async fn run(plan: ReqPlan) -> RunObs {
             let core = ep.core.clone();
             let creds = sni_creds.clone();
             sessions.push(tokio::spawn(async move {
-                core.verif_serve_session(false, stream, "vpn.example".into(), creds).await
+                let sni = creds.as_ref().map(|c| format!("{}.vpn.example", c)).unwrap_or_else(|| "vpn.example".into());
+                core.verif_serve_session(false, stream, sni, creds).await
             }));
             tasks.push(tokio::spawn(h1_request(plan.clone(), i, r.clone(), peer, obs[i].clone())));
         }
